@@ -188,6 +188,20 @@ def run(r):
     n = 25 if r.tier == "quick" else 2000
     res, hits, whits = dynamic(r, n)
     found = report_dynamic(r, hits, whits, len(res["cases"]), res["witnesses_run"])
+    # the random specification generators of the lexer/parser families, through the real generator in-process:
+    # a generator panic on a VALID specification of a particular shape (one-rule modes, nullable chains, …)
+    import lexcommon
+    import lrcommon
+    gen_panics = []
+    for fam, nq, nt, cls in (("lexgen", 16, 200, lexcommon), ("lrgen", 4, 60, lrcommon)):
+        fres = r.run_family(fam, n=nq if r.tier == "quick" else nt, timeout=7200)
+        fhits = cls.classify(fres)[-1]
+        gen_panics += [(fam,) + h for h in fhits.get("C12", [])]
+    r.obligations.append(("generator families: codegen.Generate never panics on the valid specifications of the lexgen/lrgen generators (support, not proof)",
+                          not gen_panics, "%d panics" % len(gen_panics)))
+    for (fam, i, c, im, o) in gen_panics[:3]:
+        r.violation("%s-%d" % (fam, i), {"kind": "property-violated-by-implementation", "what": o[:8000], "family": fam}, True)
+    found = found or bool(gen_panics)
     if mm and not found:
         i, c, im, mo = mm[0]
         r.violation("fronttext-corr", {"kind": "correspondence-broken", "family": "fronttext", "first_disagreement": {"case": c, "implementation": im, "model": mo},
